@@ -1217,6 +1217,7 @@ def explore(ctx, tpl, stats):
                 st["discharged"] = st.get("discharged", 0) + 1
                 continue
             abstract = False
+            alt = None
             if o.neg == FAIL:
                 ans, model = "sat", None
                 cvals = vals
@@ -1267,15 +1268,26 @@ def explore(ctx, tpl, stats):
                 else:
                     ans, model = ctx.z3.ask(q, want)
                     st["queries"] = st.get("queries", 0) + 1
+                alt = None
                 if cvals is None:
                     cvals = model_to_vals(model, tpl.vars, "int" if o.mode == "int" else "real") if (ans == "sat" and model) else None
+                if ans == "sat" and o.mode == "real" and not abstract:
+                    # the model lives in the real hull; ask for one on the grid as well (short cap), keep the snapped one as fallback
+                    qi, _ = query_text(r, opcs, o.neg, "int", tpl.assume, cut=o.cut)
+                    ai, mi = ctx.z3.ask(qi, [f"k{k}" for k in range(len(r.vars))])
+                    st["queries"] = st.get("queries", 0) + 1
+                    if ai == "sat" and mi:
+                        alt, cvals = cvals, model_to_vals(mi, tpl.vars, "int")
+                    elif ai == "unsat":
+                        # violated only off the grid: outside the stated domain
+                        ans = "unsat"
             if ans == "unsat":
                 st["discharged"] = st.get("discharged", 0) + 1
                 if sample is None and not o.ground:
                     sample = dict(template=tpl.name, docs=tpl.docs, vars=[f"v{k} in [{lo},{hi}] step 2^-{sh}" for k, (_i, lo, hi, sh) in enumerate(tpl.vars)],
                                   path=[cond_show(r, c) for c in r.path[:8]], obligation=o.name, negated_property=o.neg[:400], verdict="unsat")
             elif ans == "sat":
-                findings.append(dict(kind="cex", tpl=tpl.name, role=tpl.role, vals=cvals, obl=o.name, mode=o.mode, sxvals=None if abstract else vals, neg=o.neg[:600], detail="", abstract=abstract))
+                findings.append(dict(kind="cex", tpl=tpl.name, role=tpl.role, vals=cvals, obl=o.name, mode=o.mode, sxvals=None if abstract else vals, neg=o.neg[:600], detail="", abstract=abstract, alt=alt))
             else:
                 st["undecided"] = st.get("undecided", 0) + 1
                 findings.append(dict(kind="undecided", tpl=tpl.name, role=tpl.role, vals=None, obl=o.name, detail=ans))
